@@ -365,6 +365,8 @@ inductive Ev
   | online (w : Who) (f : Fault) -- follower (re)appears; a parked loop resumes its replica call
   | steponl (w : Who) (f : Fault) -- a replica call that finds the follower offline and marks itself suspended, and the
                                   -- online notification arrives BEFORE the loop blocks on the receive
+  | steppre (w : Who) (f : Fault) -- a replica call whose liveness test (`GetLiveNode`) finds the follower offline, and the
+                                  -- online notification is handled BEFORE the loop's `isSuspend.CompareAndSwap(false, true)`
   | fclose (w : Who)          -- the follower's partition is closed and destroyed under the leader's (possibly open) stream:
                               -- the follower's WAL GC (writeAheadLog.destroy) or writeAheadLog.Close; a fresh empty partition serves later rpcs
   | join (w : Who)            -- BuildReplicaForLeader(leader, [w]): add follower w to the partition (or re-add it after IsExpire stopped it)
@@ -419,6 +421,13 @@ def peerEv (cfg : Cfg) (s : St) : Ev → St × Out
         -- non-blocking send: nobody is receiving yet, the token is dropped; the loop then blocks for good
         ({ s with parked := true }, .parked)
     else onlineEv cfg s f
+  | .steppre _ f =>
+    if s.stopped = false ∧ s.parked = false ∧ s.chan ≠ .ready ∧ s.live = false then
+      -- IsReady: GetLiveNode fails ... (window) ... stateManager.onNodeStartup: the node is live again, the
+      -- handler's `isSuspend.CompareAndSwap(true, false)` FAILS (the flag is still false): it does nothing ...
+      -- ... the loop goes on: CAS(false, true), state := failure, `<-r.suspend` — blocked although the follower is live
+      ({ s with live := true, chan := .failure, susp := true, parked := true }, .parked)
+    else onlineEv cfg s f
   | _ => (s, .idle)
 
 def Ev.who : Ev → Option Who
@@ -429,6 +438,7 @@ def Ev.who : Ev → Option Who
   | .online w _ => some w
   | .fclose w => some w
   | .steponl w _ => some w
+  | .steppre w _ => some w
   | .join w => some w
   | _ => none
 
@@ -545,5 +555,134 @@ def step (ph : Bool) (c : C) : Op → C × Bool
 def run (ph : Bool) (ops : List Op) : C := ops.foldl (fun c o => (step ph c o).1) C.init
 
 end Conn
+
+/-! ## side model 3: the suspend / wake-up handshake as atomic steps of two threads
+
+Thread L is the partition's replica loop inside `remoteReplicator.IsReady`'s offline branch:
+  `test`  `r.stateMgr.GetLiveNode(follower)` (takes the state manager's read lock)
+  `mark`  `r.isSuspend.CompareAndSwap(false, true)` (+ statistics, `state.Store(failure)`)
+  `block` the loop reaches `<-r.suspend`
+  `take`  the receive completes (rendezvous with the handler's send / a buffered token)
+Thread H is the storage state manager's event goroutine (`processEvent` holds `m.mutex` for the whole
+event, so `test` cannot run while an event is being handled):
+  `off`   onNodeFailure: the node leaves `m.nodes` (the handler ignores NodeOffline)
+  `on`    onNodeStartup: `m.nodes[id] = node`, then the watcher is called
+  `cas`   `handleNodeStateChangeEvent`: `r.isSuspend.CompareAndSwap(true, false)`
+  `send`  the wake-up on `r.suspend`
+Three shapes of the wake-up: `blocking` (the tree as it is: unbuffered channel, plain send),
+`nonblocking` (select/default on the unbuffered channel), `buffered` (candidate repair: channel of
+capacity 1, the handler leaves a token on every NodeOnline without testing the flag, the loop clears
+the flag after the receive). `hit` is a ghost: an online notification was handled while the loop was
+between `test` and `mark`. -/
+namespace Wake
+
+inductive Shape | blocking | nonblocking | buffered
+  deriving DecidableEq, Repr
+
+inductive LPc | run | seen | marked | recv
+  deriving DecidableEq, Repr
+
+inductive HPc | idle | cas | send
+  deriving DecidableEq, Repr
+
+structure W where
+  live : Bool
+  susp : Bool
+  lpc : LPc
+  hpc : HPc
+  tok : Bool    -- a token sits in the (buffered) channel
+  hit : Bool    -- ghost
+  deriving DecidableEq, Repr
+
+def W.init : W := { live := true, susp := false, lpc := .run, hpc := .idle, tok := false, hit := false }
+
+inductive Step | test | mark | block | take | off | on | cas | send
+  deriving DecidableEq, Repr
+
+/-- one atomic step; a step that is not enabled leaves the state unchanged -/
+def step (sh : Shape) (w : W) : Step → W
+  | .test =>
+    if w.lpc = .run ∧ w.hpc = .idle then (if w.live then w else { w with lpc := .seen }) else w
+  | .mark =>
+    if w.lpc = .seen then
+      (if w.susp = false then { w with susp := true, lpc := .marked } else { w with lpc := .run })   -- CAS failed: `return r.IsReady()`
+    else w
+  | .block => if w.lpc = .marked then { w with lpc := .recv } else w
+  | .take =>
+    match sh with
+    | .buffered => if w.lpc = .recv ∧ w.tok then { w with lpc := .run, tok := false, susp := false } else w
+    | _ => if w.lpc = .recv ∧ w.hpc = .send then { w with lpc := .run, hpc := .idle } else w   -- rendezvous
+  | .off => if w.hpc = .idle ∧ w.live then { w with live := false } else w
+  | .on =>
+    if w.hpc = .idle ∧ w.live = false then
+      { w with live := true, hpc := .cas, hit := w.hit || decide (w.lpc = .seen) }
+    else w
+  | .cas =>
+    if w.hpc = .cas then
+      match sh with
+      | .buffered => { w with tok := true, hpc := .idle }            -- `select { case r.suspend <- struct{}{}: default: }`, capacity 1
+      | _ => if w.susp then { w with susp := false, hpc := .send } else { w with hpc := .idle }
+    else w
+  | .send =>
+    match sh with
+    | .nonblocking =>
+      if w.hpc = .send then
+        (if w.lpc = .recv then { w with lpc := .run, hpc := .idle } else { w with hpc := .idle })   -- no receiver yet: dropped
+      else w
+    | _ => w    -- blocking: the send completes only as the rendezvous `take`
+
+def run (sh : Shape) (ss : List Step) : W := ss.foldl (step sh) W.init
+
+/-- the loop is blocked in the receive, the follower is live, no notification is being handled and no
+token is waiting: nothing will ever wake the loop (until the follower bounces once more) -/
+def Stuck (w : W) : Prop := w.lpc = .recv ∧ w.live = true ∧ w.hpc = .idle ∧ w.tok = false
+
+instance (w : W) : Decidable (Stuck w) := by unfold Stuck; infer_instance
+
+end Wake
+
+/-! ## side model 4: the expiry tick (`partition.IsExpire` past the write window) against the replica
+loop's sub-steps and appenders, one follower
+
+`IsExpire` runs on the WAL's GC goroutine, the replica loop on its own goroutine, `WriteLog` on the
+writers'. Atomic steps: the loop's `Consume` (consumedSeq moves) and, later, the acknowledgement of
+the in-flight sequence (`SetAckIndex`) or its loss; the tick's emptiness test on the group
+(`emptyByAck = true`: `consumerGroup.IsEmpty`, appended ≤ ACKNOWLEDGED — the tree as it is;
+`false`: a test on `Pending()`, appended − CONSUMED) and, as a separate step, `stopReplicator`. -/
+namespace Tick
+
+structure T where
+  app : Int
+  cons : Int
+  gack : Int
+  infl : Option Int   -- sequence handed out by Consume whose answer is still outstanding
+  verdict : Bool      -- the tick has tested the group and found it empty; stopReplicator not yet run
+  stopped : Bool
+  late : Bool         -- ghost: an append landed after the last emptiness test that found the group empty, before its stopReplicator
+  deriving DecidableEq, Repr
+
+def T.init : T := { app := -1, cons := -1, gack := -1, infl := none, verdict := false, stopped := false, late := false }
+
+inductive Step | append | consume | ack | lose | test | stop
+  deriving DecidableEq, Repr
+
+def step (emptyByAck : Bool) (t : T) : Step → T
+  | .append => { t with app := t.app + 1, late := t.late || t.verdict }
+  | .consume =>
+    if t.stopped = false ∧ t.infl = none ∧ t.cons < t.app then { t with cons := t.cons + 1, infl := some (t.cons + 1) } else t
+  | .ack =>
+    match t.infl with
+    | some i => if t.stopped = false then { t with gack := i, infl := none } else t
+    | none => t
+  | .lose => { t with infl := none }     -- send / receive failed: consumed, never acknowledged
+  | .test =>
+    if t.stopped = false ∧ t.verdict = false then
+      { t with verdict := if emptyByAck then decide (t.app ≤ t.gack) else decide (t.app ≤ t.cons), late := false }
+    else t
+  | .stop => if t.verdict then { t with stopped := true, verdict := false } else t
+
+def run (e : Bool) (ss : List Step) : T := ss.foldl (step e) T.init
+
+end Tick
 
 end LinVerif.Replication
